@@ -1,14 +1,13 @@
 (* Actual/SrpActual.v — the quirk vector claimed for the current tree (hand-maintained; tied to the
-   code by the correspondence check, and listed flag-by-flag in /verif/known.d/C16.json). *)
+   code by the correspondence check, and listed flag-by-flag in /verif/known.d/C16.json).
+   Four earlier flags (abstract classes skipped, impl target = trait name, generic impls lost, TS raw line span)
+   were repaired by fix: commits and are gone: the model reads those rules from the generated layer. *)
 From TL Require Import Lib.Base Model.SrpTypes Model.Srp.
 
 Definition srp_actual : squirks := {|
   q_py_hash_in_string := true;
-  q_ts_loc_raw_span := true;
   q_ts_nonpublic_counted := true;
   q_ts_accessor_counted := true;
-  q_ts_abstract_skipped := true;
-  q_rs_trait_first_ident := true;
-  q_rs_generic_impl_lost := true;
+  q_ts_block_comment_counted := true;
   q_rs_name_collision := true;
   q_rs_block_comment_counted := true |}.
